@@ -761,6 +761,25 @@ func probeMode() string {
 	return strict + " " + dup + " " + succ
 }
 
+// storeQuery asks the IAVL store itself (store/iavl/store.go Query), bypassing rootmulti.
+func (w *world) storeQuery(n string, v int64, key []byte) (r queryRes) {
+	defer func() {
+		if e := recover(); e != nil {
+			r = queryRes{status: "PANIC"}
+		}
+	}()
+	st := w.rs.GetCommitKVStore(w.keys[n]).(*iavl.Store)
+	res := st.Query(abci.RequestQuery{Path: "/key", Data: key, Height: v, Prove: true})
+	if res.Code != 0 || res.Proof == nil {
+		return queryRes{status: "ERR"}
+	}
+	ops, ok := decodeOps(res.Proof)
+	if !ok {
+		return queryRes{status: "ERR"}
+	}
+	return queryRes{value: res.Value, ops: ops, status: "ok"}
+}
+
 func main() {
 	seed := flag.Uint64("seed", 1, "seed")
 	n := flag.Int("n", 3000, "approximate number of trace lines")
@@ -839,6 +858,29 @@ func history(r *gen.R, t *gen.Trace, budget, maxMut int, canned bool) {
 		}
 		latest = w.commit()
 	}
+	// uncommitted writes reach the working trees after the last commit (the window between the flush
+	// of a block's writes and SaveVersion): every query below is about *committed* versions and must
+	// not see them - neither in values nor in proofs, at the latest height in particular
+	if canned || r.Chance(2, 3) {
+		np := 2 + r.Intn(5)
+		for i := 0; i < np; i++ {
+			n := order[r.Intn(2)]
+			k := keyU[r.Intn(len(keyU))]
+			if canned {
+				n, k = "acc", [][]byte{[]byte("a"), []byte("c"), []byte("0"), []byte("g"), []byte("cc"), []byte("f")}[i%6]
+			}
+			st := w.rs.GetKVStore(w.keys[n])
+			if _, live := w.live[n][string(k)]; live && (i%2 == 0) {
+				_ = st.Delete(k)
+				delete(w.live[n], string(k))
+				t.Line("pending", false, "pending %s del %s => -", hx([]byte(n)), hx(k))
+			} else {
+				_ = st.Set(k, []byte("uncommitted"))
+				w.live[n][string(k)] = []byte("uncommitted")
+				t.Line("pending", false, "pending %s set %s => -", hx([]byte(n)), hx(k))
+			}
+		}
+	}
 	// choose the versions to examine: the latest and one older
 	vs := []int64{latest}
 	if latest > 1 {
@@ -863,6 +905,11 @@ func history(r *gen.R, t *gen.Trace, budget, maxMut int, canned bool) {
 					continue
 				}
 				_ = want
+				if sq := w.storeQuery(n, v, k); sq.status == "ok" {
+					t.Line("squery", present, "squery %s %d %s => %s %s", hx([]byte(n)), v, hx(k), gen.Hex(sq.value), serOps(sq.ops))
+				} else {
+					t.Line("squery", false, "squery %s %d %s => %s !", hx([]byte(n)), v, hx(k), sq.status)
+				}
 				absence := q.value == nil
 				root := w.app[v]
 				verdict := verifyReal(q.ops, root, n, k, q.value, absence)
